@@ -2,19 +2,35 @@
 """Regenerates /verif/MANIFEST.json from the table below (single source of truth)."""
 import json, subprocess
 
-BASELINE_OFF = ("cd /repo && cargo nextest run --workspace --no-fail-fast --test-threads 8 --offline "
+BASELINE_OFF = ("cd /repo && cargo nextest run --workspace --no-fail-fast --tool-config-file pb:/w/lib/nextest.toml --profile pb --test-threads 8 --offline "
                 "|| cargo test --workspace --no-fail-fast --offline")
 
 # id -> dict(engine, technique, text, note, design_ref)
 CHECKS = {
+ "C01": dict(engine="repl", design="§4, §5 C01",
+   technique="explicit-state replay-BFS over 2-3 real nodes (every transition executed by the real write/apply/sync functions), safety invariant in every state and fair-closure convergence oracle from every state, against a reference merge computed by a fresh real node",
+   text="For each write script (conflicting writers, overwrites, relay overwriting a received cell; thorough adds deletes/re-inserts and 3-node variants) every dissemination history to fix-point or cap: delivery of any seq sub-range of any version to any receiver, batches, lossy sync sessions (any single answer dropped, any prefix kept), apply and clear steps. In every state nothing exposed through crsql_changes is outside the acknowledged transactions; from every state the fair closure (lossless syncs between all ordered pairs + apply/clear until nothing changes) must end with identical tables and cell versions equal to the reference merge, empty need/partial_need and full heads.",
+   note="QUIC transport, handle_changes queueing and parallel_sync's client-side request de-duplication are bypassed (requests are compute_available_needs' output served by the real process_sync/handle_need). cr-sqlite's merge is trusted. Bounds: <=3 nodes, <=3 versions, <=2 keys; depth to fix-point where reached, caps recorded in evidence."),
  "C02": dict(engine="booked", design="§5 C02",
    technique="explicit-state BFS to fix-point over bookkeeping states through the real insert_db/commit_snapshot/from_conn, plus replay-BFS over a real node (process_multiple_changes, apply, clear) against an event-based set model",
    text="(a) every reachable (needed, head, gap rows) state for a universe of 8 (thorough 11) versions x every non-empty version set as an insertion, on a real connection, to fix-point: head, needed set, gap rows (disjoint, non-adjacent, in range), contains_version and reload equality checked on every transition. (b) a real node receiving complete / every seq sub-range chunk / every empty range / batches of two for 2 (thorough 3) versions of 3 seqs, with apply and clear steps: after every step the advertised sync state must split 1..=head exactly (held => delivered complete or covered; partial => exactly the undelivered seqs and not applied; needed => nothing stored), persisted gap/seq rows must equal memory, stale rows must have a clear scheduled, and BookedVersions::from_conn must agree with the live view.",
    note="(b) is bounded by depth (quick: depth 2 complete, depth 3 until a 35 s wall cap; the cap and frontier left are in the evidence). Versions are 3-cell inserts on distinct keys. A fully buffered, not yet applied version may be advertised as held (it is durably stored)."),
+ "C03": dict(engine="repl", design="§4, §5 C03",
+   technique="explicit-state replay-BFS over a real receiver: every cut/overlap/order/batching of a version's seq range, with visibility invariants in every state and a differential twin (same history, version delivered unchunked) after every apply",
+   text="Versions of 2 and 4 seqs (and versions partly or wholly overwritten later) delivered to a real node as every contiguous sub-range in every order, batches of two (adjacent, reversed, overlapping, mixed versions), to fix-point: no change stamped with the version is visible before the union of received ranges covers it; an apply trigger is pending iff coverage just completed; after the apply step the node's tables and crsql_changes equal those of the twin history in which the version arrives as one complete changeset; after the fair closure every partial is applied or discarded and no buffered/seq rows remain.",
+   note="Twin comparison is skipped (and counted) when a partial chunk came from a sync answer. Suppliers other than the origin enter through sync sessions in the 3-node families (thorough)."),
  "C04": dict(engine="pure", design="§5 C04",
    technique="exhaustive small-scope enumeration of all pairs of well-formed sync states through the real compute_available_needs, against an independent set model",
    text="Every pair (ours, theirs) of well-formed SyncStateV1 values for one origin actor up to V versions x S seqs (quick: V<=4/S=0, V<=4/S<=1, V<=3/S<=2; thorough: up to V<=6), plus two origin actors and the node's own actor id on both sides, is pushed through the real function; completeness, head bound and not-own-versions are checked by a bitmask set model. Exhaustive within those bounds, so any off-by-one or dropped subtraction in the range arithmetic shows as a concrete pair.",
    note="Trusts the generator's notion of well-formed state (shape emitted by generate_sync). Larger version universes and >2 origin actors are outside the bound; actors are independent in the code by construction."),
+ "C05": dict(engine="repl", design="§4, §5 C05",
+   technique="explicit-state replay-BFS to fix-point over server database states; in every distinct state every full and partial need within the advertised heads is served by the real process_sync/handle_need and judged against the server's own tables and advertised state",
+   text="Server states: every reachable mix of applied, overwritten, wholly-dead, deleted, partially buffered, fully-buffered-unapplied and missing versions for scripts of 2-3 versions; requests: every Full{lo..=hi} and every Partial{v,[i..=j]} (plus a two-range partial) with v <= head. Per requested version: live rows => changesets agree on last_seq, tile the request and carry exactly the live rows; held without live rows => declared empty and nothing else; buffered => exactly stored ranges ∩ request with the buffered rows; needed => silence; never an Empty over a needed/partial version; every change inside its changeset's range. Case-class hit counts are in the evidence.",
+   note="Requests above the advertised head are outside the statement. The wire tier (scripted QUIC client) is not built; handle_need is reached through the real process_sync filter in-process."),
+ "C06": dict(engine="repl", design="§4, §5 C06",
+   technique="explicit-state replay-BFS with a crash-restart event enabled after every committed step of every node (runtime and memory dropped, node reopened on its files), one-sided recovery oracle plus convergence closure",
+   text="Every history of local writes, complete/partial deliveries, apply and clear steps to fix-point, with a crash of any node placed after any step (each step performs at most one commit; the window between a commit and the in-memory update is the same disk state with memory discarded). After restart: every acknowledged local version is known, the rebuilt sync state claims as held only versions that were delivered complete or covered (and advertises at least the truly missing seqs of partials), fully buffered versions are re-scheduled and applied, and the fair closure still converges to the reference merge.",
+   note="Restart uses the harness's socket-free open, which repeats run_root's bookkeeping load (same SQL, BookedVersions::from_conn, re-trigger rule); validation of that against the real start_with_config is listed in DESIGN.md as not yet bound. Torn pages / fsync ordering are outside the statement."),
  "C08": dict(engine="pure", design="§5 C08",
    technique="exhaustive enumeration of change lists x size limits x limit-change schedules through the real ChunkedChanges iterator and chunk_range",
    text="All start in 0..=2, spans up to 6 (thorough 8), every subset of [start,last] as present seqs, small/large size per change, 8 limits incl. 0, limit changed after each of the first 2 (thorough 3) chunks to any limit; tiling, containment, order and termination are asserted on every produced chunk list; chunk_range for all lo<=hi<=30 (60) x chunk 1..=12.",
@@ -66,6 +82,7 @@ def main():
         "engines": [
             {"name": "booked", "path": "harness/src/bin/booked.rs", "serves_properties": ["C02"], "kind_free_text": "BFS to fix-point over real bookkeeping + replay-BFS over a real node"},
             {"name": "members", "path": "harness/src/bin/members.rs", "serves_properties": ["C18"], "kind_free_text": "stateright BFS over the real Members methods"},
+            {"name": "repl", "path": "harness/src/bin/repl.rs", "serves_properties": ["C01", "C03", "C05", "C06"], "kind_free_text": "replay-from-history explicit-state BFS over 2-3 real nodes"},
             {"name": "pure", "path": "harness/src/bin/pure.rs", "serves_properties": ["C04", "C08"], "kind_free_text": "exhaustive small-scope enumeration of pure functions against set models"},
         ],
         "checks": checks,
